@@ -114,3 +114,63 @@ func newRecPQ[J any]() recPQ {
 	in := queues.NewPriorityQueue[J]()
 	return recPQ{in, nextQID(in)}
 }
+
+// recAckQ / recAckPQ: an in-memory queue of the user's own that also implements IAcknowledgeable
+// (a broker-like queue bound through WithQueue / WithPriorityQueue, handing typed jobs out with a
+// delivery id). The library has nothing to acknowledge for a job it holds as a value; whatever it
+// does with the id, the handle of the job must complete (C05). Acknowledge refuses now and then.
+type recAckQ struct {
+	recQ
+	st *ackState
+}
+
+type recAckPQ struct {
+	recPQ
+	st *ackState
+}
+
+type ackState struct {
+	n    int
+	fail int
+}
+
+func (a *ackState) next() string { a.n++; return "ua" + strconv.Itoa(a.n) }
+func (a *ackState) ack(id string) bool {
+	ok := !(a.fail > 0 && vt.Rand().Intn(a.fail) == 0)
+	vt.Mark("uq:ack", nil, id+" "+b01(ok))
+	return ok
+}
+
+func (q recAckQ) DequeueWithAckId() (any, bool, string) {
+	v, ok := q.Dequeue()
+	if !ok {
+		return nil, false, ""
+	}
+	return v, true, q.st.next()
+}
+func (q recAckQ) Acknowledge(id string) bool { return q.st.ack(id) }
+
+func (q recAckPQ) DequeueWithAckId() (any, bool, string) {
+	v, ok := q.Dequeue()
+	if !ok {
+		return nil, false, ""
+	}
+	return v, true, q.st.next()
+}
+func (q recAckPQ) Acknowledge(id string) bool { return q.st.ack(id) }
+
+func newUserQ[J any](ackable bool) IQueue {
+	q := newRecQ[J]()
+	if ackable {
+		return recAckQ{q, &ackState{fail: 2}}
+	}
+	return q
+}
+
+func newUserPQ[J any](ackable bool) IPriorityQueue {
+	q := newRecPQ[J]()
+	if ackable {
+		return recAckPQ{q, &ackState{fail: 2}}
+	}
+	return q
+}
